@@ -976,6 +976,16 @@ func genContainer(r *Rand, g GenCfg) Plan {
 		for i := 0; i < n; i++ {
 			p.Tokens = append(p.Tokens, genTokSpec(r, len(p.Cast), fmt.Sprintf("t%d", i), r.Chance(0.3)))
 		}
+		if n > 0 && g.Index%8 == 3 {
+			// one token far larger than any internal buffer (4 KiB, 64 KiB)
+			big := MetaSpec{Key: "blob", V: ptr(vBytes(r.Bytes(Pick(r, []int{5000, 9000, 66000, 70000, 140000}))))}
+			t := &p.Tokens[r.Intn(n)]
+			if t.Kind == "dlg" {
+				t.Dlg.Meta = append(t.Dlg.Meta, big)
+			} else {
+				t.Inv.Meta = append(t.Inv.Meta, big)
+			}
+		}
 	}
 	p.AddOrder = r.Perm(n)
 	p.Reuse = r.Chance(0.5)
